@@ -377,7 +377,7 @@ def run_shape(ctx, rng, r):
             continue
     # ---- building: every named leaf made unbuildable in turn
     FLOATBAD[0] = ["not a number", 1e300, -3.5e38, 70000.0][ctx.evaluations % 4]
-    BYTESBAD[0] = [b"toolongvalue", (1, 2), (), [1, 2, 3], 2.5, "text", {"a": 1}][(ctx.evaluations // 4) % 7]
+    BYTESBAD[0] = [b"toolongvalue", (1, 2), (), [1, 2, 3], 2.5, "text", {"a": 1}, 2 ** 70, -1][(ctx.evaluations // 4) % 9]      # (Bytes also builds from an integer: one that does not fit)
     for chain, leaf, bad in [(c, l, bad_value_for(l)) for c, l in leaves] + [(c, l, "\u20ac not ascii") for c, l in leaves if l[0] in ("CString", "PaddedString") and l[-1] == "ascii"]:
         if bad is None:
             continue
@@ -444,6 +444,12 @@ def region_end_failures(ctx):
             v = {"direct": {"r": val}, "nested": {"h": 1, "msg": {"flags": val, "t": 2}}, "array": {"xs": [{"f": val}]}, "prefixed": {"p": {"q": val}}}[wrapname]
             data = {"direct": b"", "nested": b"\x01", "array": b"", "prefixed": b"\x02"}[wrapname] + bytes([(n << 4) | 0x0f, 0xff]) + b"\x02"
             cases.append(("bit-region-ends-inside-a-byte:" + wrapname, d, v, data, chain, chain))
+    vb = C.Bitwise(C.Struct("w" / C.Nibble, "small" / C.BitsInteger(C.this.w), "rest" / C.BitsInteger(4), "tail" / C.Array(C.this.w, C.Bit)))
+    for w, val, chain0 in ((3, {"w": 3, "small": 99, "rest": 1, "tail": [1, 0, 1]}, ["small"]), (5, {"w": 5, "small": 1, "rest": 77, "tail": [1] * 5}, ["rest"]),
+                           (2, {"w": 2, "small": 1, "rest": 1, "tail": [1, "x"]}, ["tail"]), (1, {"w": 1, "small": -1, "rest": 0, "tail": [0]}, ["small"])):
+        for wrapname, wrap, pre in (("direct", lambda x: C.Struct("bits" / x), ["bits"]), ("nested", lambda x: C.Struct("records" / C.Array(1, "rec" / C.Struct("bits" / x, "t" / C.Byte))), ["records", "rec", "bits"])):
+            v = {"bits": val} if wrapname == "direct" else {"records": [{"bits": val, "t": 1}]}
+            cases.append(("unbuildable-member-after-a-partial-byte:" + wrapname, wrap(vb), v, None, pre + chain0, None))
     for bad, chain in (({"k": 1, "body": {"v": 70000, "e": "a"}}, ["body", "v"]), ({"k": 1, "body": {"v": 1, "e": "zz"}}, ["body", "e"]), ({"k": 300, "body": {"v": 1, "e": "a"}}, ["k"])):
         for wrapname, wrap, pre in (("direct", lambda x: C.Struct("z" / x), ["z"]), ("nested", lambda x: C.Struct("h" / C.Byte, "msg" / C.Struct("z" / x)), ["msg", "z"])):
             d = wrap(tun)
@@ -502,7 +508,20 @@ def explicit_parse_failures(ctx):
 
         def seek(self, *a):
             raise io.UnsupportedOperation("seek")
+    class ReadOnly(object):
+        """a source that offers nothing but read() (a pipe, a socket file, a decompressor)"""
+        def __init__(self, data):
+            self.b = io.BytesIO(data)
+
+        def read(self, n=-1):
+            return self.b.read(n)
     cases = []
+    # truncated encodings read from a source that can neither tell nor seek: the short read is still reported with the path
+    trunc = C.Struct("hdr" / C.Byte, "a" / C.Struct("b" / C.Int16ub, "c" / C.Int32ub), "xs" / C.Array(2, "e" / C.Struct("v" / C.Int16ub)))
+    full = bytes(range(1, 12))
+    for cut, chain in ((0, ["hdr"]), (2, ["a", "b"]), (3, ["a", "c"]), (6, ["a", "c"]), (8, ["xs", "e", "v"]), (10, ["xs", "e", "v"])):
+        cases.append(("truncated:read-only-source", trunc, ReadOnly(full[:cut]), chain, "parse_stream"))
+        cases.append(("truncated:forward-only-source", trunc, ForwardOnly(full[:cut]), chain, "parse_stream"))
     # negative payload sizes
     for lf, data in ((C.Int8sb, b"\xff"), (C.Int8sb, b"\x80abc"), (C.Int16sb, b"\xff\xfe")):
         cases.append(("negative-length:signed-prefix", C.Struct("records" / C.Array(1, "record" / C.Struct("name" / C.Prefixed(lf, C.GreedyBytes)))), data, ["records", "record", "name"], "parse"))
